@@ -108,8 +108,9 @@ Theorem roundtrip_comment_partial : forall v rest,
 Proof. intros. apply lex_comment; auto using tok_ops_rt_ok. Qed.
 Print Assumptions roundtrip_comment_partial.
 
+(* a line comment runs to the first newline that no backslash precedes: backslash-newline continues it *)
 Theorem roundtrip_line_comment : forall body rest,
-  Forall (fun x => x <> 0 /\ x <> 92 /\ x <> 10) body ->
+  line_ok body = true ->
   getToken fixed tok_ops (47 :: 47 :: body ++ 10 :: rest) = Ok (Some (TComment (47 :: 47 :: body)), 10 :: rest).
 Proof. intros. apply lex_line_comment; auto using tok_ops_rt_ok. Qed.
 Print Assumptions roundtrip_line_comment.
@@ -187,6 +188,12 @@ Example good_examples :
   /\ forallb (fun o => spec_op tok_ops o || ot_has (op_type o) ot_comment) tok_ops = true
   /\ length tok_ops = 64%nat.
 Proof. repeat split; vm_compute; reflexivity. Qed.
+
+Example line_comment_continuation :   (* "//a\<newline>b" newline "x": one comment, newline, identifier *)
+  line_ok [97; 92; 10; 98] = true /\
+  tokenize fixed tok_ops ([47; 47; 97; 92; 10; 98; 10; 120] ++ [0])
+    = Ok [TComment [47; 47; 97; 92; 10; 98]; TNewline; TIdent [120]].
+Proof. split; vm_compute; reflexivity. Qed.
 
 Example seq_example :
   tokenize fixed tok_ops (printSeq fixed
